@@ -9,7 +9,7 @@ import numpy
 from hypothesis import strategies as st
 
 from .. import arr as A
-from ..core import Failure, drive
+from ..core import sstr, Failure, drive
 
 ID = "C18"
 LEVEL = "exploration"
@@ -103,7 +103,7 @@ def check_write(case, rec):
         try:
             cmd.result
         except Exception as exc:
-            return [Failure("%s|raises:%s" % (sig, A.exc_name(exc)), str(exc)[:300])]
+            return [Failure("%s|raises:%s" % (sig, A.exc_name(exc)), sstr(exc)[:300])]
         union = numpy.zeros(shape, dtype=bool)
         for a in arrays:
             union |= numpy.ma.getmaskarray(a)
@@ -145,7 +145,7 @@ def check_write(case, rec):
             status, res = cmd_read(out, r["name"], "Integer" if kind == "i" else "Float")
             rec.label("reread")
             if status == "err":
-                return [Failure(sig + "|reread_raises:%s" % A.exc_name(res), str(res)[:300])]
+                return [Failure(sig + "|reread_raises:%s" % A.exc_name(res), sstr(res)[:300])]
             if list(res.shape) != shape or numpy.ma.getdata(res).dtype.kind != kind:
                 return [Failure(sig + "|reread_shape_or_kind", "%r %s" % (res.shape, numpy.ma.getdata(res).dtype))]
             m = numpy.ma.getmaskarray(res)
@@ -153,6 +153,24 @@ def check_write(case, rec):
                 return [Failure(sig + "|reread_mask", "variable %s" % r["name"])]
             if not (numpy.ma.getdata(res)[~union] == numpy.ma.getdata(a)[~union]).all():
                 return [Failure(sig + "|reread_values", "variable %s" % r["name"])]
+        # writing a subset again afterwards: each dataset is missing exactly where the results written *together* were
+        if len(arrays) >= 2:
+            k = case.get("again", 0) % len(arrays)
+            out2 = os.path.join(tmp, "out2.nc")
+            own = numpy.array(case["results"][k]["spec"]["mask"], dtype=bool).reshape(shape) if case["results"][k]["spec"]["mask"] is not None \
+                else numpy.zeros(shape, dtype=bool)
+            cmd2 = EEMSWrite("W2", [Argument("OutFileName", out2, 1), Argument("OutFieldNames", [producers[k]], 2),
+                                    Argument("DimensionFileName", tpl, 3), Argument("DimensionFieldName", "template", 4)], lineno=1)
+            rec.label("second_write_of_a_subset")
+            try:
+                cmd2.result
+                with Dataset(out2) as ds:
+                    m2 = numpy.ma.getmaskarray(ds[case["results"][k]["name"]][:])
+                if not (m2 == own).all():
+                    return [Failure(sig + "|second_write_mask", "result %s written alone after a joint write is missing at %r, its own missing cells are %r" % (
+                        case["results"][k]["name"], m2.ravel().astype(int).tolist(), own.ravel().astype(int).tolist()))]
+            except Exception as exc:
+                return [Failure("%s|second_write_raises:%s" % (sig, A.exc_name(exc)), sstr(exc)[:300])]
         if len(arrays) >= 2 and len(set(tuple(numpy.ma.getmaskarray(a).ravel()) for a in arrays)) >= 2:
             rec.nontrivial_case(case)
             rec.label("write_nontrivial", sample=case if numpy.prod(shape) <= 3 else None)
@@ -196,7 +214,7 @@ def check_read(case, rec):
                 return [Failure(sig + "|expected:InvalidFuzzyData|got:%s" % (A.exc_name(res) if status == "err" else "ok"), repr(res)[:200])]
             return _str_ok(res, sig)
         if status == "err":
-            return [Failure("%s|raises:%s" % (sig, A.exc_name(res)), str(res)[:300])]
+            return [Failure("%s|raises:%s" % (sig, A.exc_name(res)), sstr(res)[:300])]
         fails = []
         if not isinstance(res, numpy.ndarray) or list(res.shape) != shape:
             return [Failure(sig + "|shape", "%r vs %r" % (getattr(res, "shape", type(res)), shape))]
@@ -275,7 +293,7 @@ def write_cases(draw):
             data = draw(st.lists(st.integers(-4000, 4000).map(lambda v: v / 8.0), min_size=n, max_size=n))
         mask = draw(st.one_of(st.none(), st.none(), st.lists(st.sampled_from([0, 0, 1]), min_size=n, max_size=n)))
         results.append({"name": "R%d" % i, "spec": {"data": data, "mask": mask, "dtype": dtype}})
-    return {"dims": dims, "results": results}
+    return {"dims": dims, "results": results, "again": draw(st.integers(0, 3))}
 
 
 @st.composite
